@@ -30,6 +30,11 @@ func (lookaheadSlice) Corpus() [][]string {
 		{"la kind=vod n=8 fmp4=0"},
 		{"la kind=endlist n=9 fmp4=1"},
 		{"la kind=live n=5 fmp4=0"},
+		{"la kind=vod n=9 fmp4=1 parts=3"},
+		{"la kind=live n=6 fmp4=1 parts=2"},
+		{"la kind=vod n=8 fmp4=1 parts=2 block=1"},
+		{"la kind=endlist n=10 fmp4=1 parts=3 block=5"},
+		{"la kind=vod n=8 fmp4=0 parts=1 block=2"},
 	}
 }
 
@@ -37,7 +42,18 @@ func (lookaheadSlice) Gen(r *rand.Rand, _ int, _ string) ([]string, []string) {
 	kind := []string{"vod", "endlist", "live", "event"}[r.Intn(4)]
 	n := 1 + r.Intn(12)
 	f := r.Intn(2)
-	return []string{fmt.Sprintf("la kind=%s n=%d fmp4=%d", kind, n, f)}, []string{"kind=" + kind, "fmp4=" + strconv.Itoa(f)}
+	// fMP4 segments made of several moof/mdat pairs (what a Low-Latency muxer writes; a non-LL client fetches them whole)
+	parts := 1
+	if f == 1 && r.Intn(2) == 0 {
+		parts = 2 + r.Intn(3)
+	}
+	// the unit the consumer gets stuck on: any unit of the first three segments
+	block := 0
+	if r.Intn(3) != 0 {
+		block = r.Intn(parts * min(n, 3))
+	}
+	return []string{fmt.Sprintf("la kind=%s n=%d fmp4=%d parts=%d block=%d", kind, n, f, parts, block)},
+		[]string{"kind=" + kind, "fmp4=" + strconv.Itoa(f), "parts=" + strconv.Itoa(parts), "blockseg=" + strconv.Itoa(block/parts)}
 }
 
 type laRunner struct{ fails []string }
@@ -51,6 +67,7 @@ type laServer struct {
 	kind     string
 	n        int
 	fmp4     bool
+	parts    int
 	polls    int
 	segReqs  []int
 	activity time.Time
@@ -103,7 +120,10 @@ func (s *laServer) RoundTrip(req *http.Request) (*http.Response, error) {
 		k, _ := strconv.Atoi(strings.TrimSuffix(strings.TrimSuffix(strings.TrimPrefix(name, "seg"), ".ts"), ".mp4"))
 		s.segReqs = append(s.segReqs, k)
 		if s.fmp4 {
-			body = selFMP4Part(k)
+			body = nil
+			for j := 0; j < s.parts; j++ {
+				body = append(body, selFMP4Part(k*s.parts+j)...)
+			}
 		} else {
 			body = selMPEGTSSegment(k)
 		}
@@ -119,7 +139,11 @@ func (r *laRunner) Step(line string) []string {
 	}
 	a := kvs(ws[1:])
 	n, _ := strconv.Atoi(a["n"])
-	sv := &laServer{kind: a["kind"], n: n, fmp4: a["fmp4"] == "1", activity: time.Now()}
+	np, _ := strconv.Atoi(a["parts"])
+	if np < 1 {
+		np = 1
+	}
+	sv := &laServer{kind: a["kind"], n: n, fmp4: a["fmp4"] == "1", parts: np, activity: time.Now()}
 
 	parked := make(chan struct{}, 64)
 	gohlslib.VerifSetYieldHook(func(p string) {
@@ -135,6 +159,12 @@ func (r *laRunner) Step(line string) []string {
 	release := make(chan struct{})
 	first := make(chan struct{}, 1)
 	var once sync.Once
+	block, _ := strconv.Atoi(a["block"])
+	if block >= np*n {
+		block = 0
+	}
+	var unitMu sync.Mutex
+	units := 0
 	cl := &gohlslib.Client{
 		URI:        "http://origin/stream.m3u8",
 		HTTPClient: &http.Client{Transport: sv},
@@ -143,8 +173,15 @@ func (r *laRunner) Step(line string) []string {
 		for _, t := range tracks {
 			if _, ok := t.Codec.(*codecs.H264); ok {
 				cl.OnDataH26x(t, func(_ int64, _ int64, _ [][]byte) {
+					unitMu.Lock()
+					mine := units
+					units++
+					unitMu.Unlock()
+					if mine < block {
+						return
+					}
 					once.Do(func() { first <- struct{}{} })
-					<-release // the consumer is busy with its first unit until released
+					<-release // the consumer is busy with this unit until released
 				})
 			}
 		}
@@ -154,6 +191,7 @@ func (r *laRunner) Step(line string) []string {
 		return []string{"la start-error"}
 	}
 	bound := 3 // one being processed + two waiting
+	blockSeg := block / np // the segment being processed when the consumer gets stuck
 	outcome := "ok"
 	select {
 	case <-first:
@@ -186,9 +224,9 @@ func (r *laRunner) Step(line string) []string {
 	sv.mu.Lock()
 	reqs := append([]int(nil), sv.segReqs...)
 	sv.mu.Unlock()
-	if outcome == "ok" && len(reqs) > bound {
-		r.fails = append(r.fails, fmt.Sprintf("C20 look-ahead: %d segments %v were downloaded while the first one was still being processed (bound %d = 1 in process + 2 waiting); kind=%s n=%d fmp4=%v",
-			len(reqs), reqs, bound, sv.kind, sv.n, sv.fmp4))
+	if outcome == "ok" && len(reqs) > blockSeg+bound {
+		r.fails = append(r.fails, fmt.Sprintf("C20 look-ahead: %d segments %v were downloaded while segment %d was still being processed (bound %d = 1 in process + 2 waiting); kind=%s n=%d fmp4=%v parts=%d block=%d",
+			len(reqs), reqs, blockSeg, bound, sv.kind, sv.n, sv.fmp4, sv.parts, block))
 	}
 	for i := 1; i < len(reqs); i++ {
 		if reqs[i] != reqs[i-1]+1 {
